@@ -3,7 +3,10 @@ package c11
 import (
 	"fmt"
 	"os"
+	"sort"
 	"strings"
+	"sync/atomic"
+	"time"
 
 	"verif/core"
 )
@@ -372,7 +375,10 @@ func partBSweeps(r *core.Run) []sweep {
 }
 
 // runPartB enumerates all sweeps; returns false if the deadline cut it.
-func runPartB(r *core.Run) bool {
+func runPartB(r *core.Run, soft time.Time) bool {
+	if hs := hardStop(r); soft.After(hs) {
+		soft = hs
+	}
 	sweeps := partBSweeps(r)
 	if only := os.Getenv("C11_ONLY"); only != "" { // development aid: restrict to sweeps whose name contains the string
 		var sel []sweep
@@ -383,13 +389,20 @@ func runPartB(r *core.Run) bool {
 		}
 		sweeps = sel
 	}
+	// smallest sweeps first: a cut run has then completed as many sweeps (traps) as possible
+	sort.SliceStable(sweeps, func(i, j int) bool { return sweeps[i].size() < sweeps[j].size() })
 	complete := true
 	var doneNames []string
 	for si := range sweeps {
 		s := &sweeps[si]
 		n := s.size()
 		workers := make([]*bWorker, r.Workers)
+		var softCut atomic.Bool
 		ok := r.Parallel(n, 2048, func(wi int, lo, hi int64) {
+			if softCut.Load() || time.Now().After(soft) {
+				softCut.Store(true)
+				return
+			}
 			bw := workers[wi]
 			if bw == nil {
 				bw = &bWorker{run: r}
@@ -422,7 +435,7 @@ func runPartB(r *core.Run) bool {
 			r.Add("partB_cases", evals)
 			r.Add("partB_cases_trap_invoked", nontrivial)
 		})
-		if !ok {
+		if !ok || softCut.Load() {
 			complete = false
 			r.Set("partB_cut_in_sweep", fmt.Sprintf("%d:%s", si, s.name))
 			break
